@@ -47,7 +47,7 @@ m = {
  "not_applicable":[]
 }
 BOUNDED_ONLY = {
- "C10": ("BOUNDED stand-in only - not a proof and not counted as one. The allocator is WebAssembly text; the Go VC generator does not reach it and the WAT generator planned in DESIGN 4.15 was not built, so no contract obligation exists for this property. What runs: the real malloc.wat, assembled by the repo's wat2wasm and executed by the vendored engine through malloc.Heap, for every history of at most 4 (thorough 5) operations in five families: a spread of 13 request sizes with frees of the first three live blocks under fixed-list capacities 0, 1, 100; histories that start from a populated heap (200,200,136,200,200 / six blocks of 24 / 32,80,32,80,48,48) with four request sizes and frees of the first five live blocks under capacities 0, 1, 2 (reuse, splitting, coalescing, overflow of the size-class lists); a split-remainder family (blocks a little larger than a size class handed out, freed and handed out again; one operation deeper), an exhaustion family (memory at or near its maximum, big blocks allocated and freed, small and exactly fitting requests); and requests sized relative to the room below the heap top (ending at, just before and just behind the top and the next two page boundaries, plus requests of 2^28+16 and 2^30 bytes, depth 3 resp. 4) under four configurations. After every operation each live block is 8-byte aligned, lies behind the list headers and below the bump pointer inside linear memory, is at least as large as requested, overlaps no other live block, the contents of the other live blocks are unchanged, every size-class list holds at most cap blocks of its class, the general list is circular and address ordered, the block headers tile the heap from its first block to the bump pointer with every block either live or on exactly one free list, and the call returns within 5 s.",
+ "C10": ("BOUNDED stand-in only - not a proof and not counted as one. The allocator is WebAssembly text; the Go VC generator does not reach it and the WAT generator planned in DESIGN 4.15 was not built, so no contract obligation exists for this property. What runs: the real malloc.wat, assembled by the repo's wat2wasm and executed by the vendored engine through malloc.Heap, for every history of at most 4 operations (thorough: 5 in the populated-heap and exhaustion families, 6 for split remainders) in seven families: a spread of 13 request sizes with frees of the first three live blocks under fixed-list capacities 0, 1, 100; histories that start from a populated heap (200,200,136,200,200 / six blocks of 24 / 32,80,32,80,48,48) with four request sizes and frees of the first five live blocks under capacities 0, 1, 2 (reuse, splitting, coalescing, overflow of the size-class lists); a split-remainder family (blocks a little larger than a size class handed out, freed and handed out again; one operation deeper), an exhaustion family (memory at or near its maximum, big blocks allocated and freed, small and exactly fitting requests); and requests sized relative to the room below the heap top (ending at, just before and just behind the top and the next two page boundaries, plus requests of 2^28+16 and 2^30 bytes, depth 3 resp. 4) under four configurations. After every operation each live block is 8-byte aligned, lies behind the list headers and below the bump pointer inside linear memory, is at least as large as requested, overlaps no other live block, the contents of the other live blocks are unchanged, every size-class list holds at most cap blocks of its class, the general list is circular and address ordered, the block headers tile the heap from its first block to the bump pointer with every block either live or on exactly one free list, and the call returns within 5 s.",
          "Exhaustive within the bound, silent beyond it. Within the bound a failed request (result 0) is also checked against the failure clause: its size class's list is empty, the general list holds no block large enough, and the missing room exceeds what may still be grown. Assumed: the vendored engine and wat2wasm. Listed here rather than under not_applicable because the brief allows a bounded check, labelled bounded, to stand in for code the verifier cannot reach.",
          "DESIGN.md section 4.15"),
 }
